@@ -290,6 +290,14 @@ impl<'b> LuaDocParser<'_, 'b> {
         self.bump();
     }
 
+    pub fn enter_level(&mut self) -> bool {
+        self.lua_parser.enter_level()
+    }
+
+    pub fn leave_level(&mut self) {
+        self.lua_parser.leave_level()
+    }
+
     pub fn push_error(&mut self, error: LuaParseError) {
         self.lua_parser.errors.push(error);
     }
